@@ -57,7 +57,7 @@ func (s step) String() string {
 	switch s.Op {
 	case "set":
 		return fmt.Sprintf("set(%q,%s)", s.Key, short(s.Val))
-	case "del", "get":
+	case "del", "get", "split":
 		return fmt.Sprintf("%s(%q)", s.Op, s.Key)
 	case "bget":
 		return fmt.Sprintf("bget(%q)", s.Keys)
@@ -83,9 +83,10 @@ const (
 	fSplit
 	fDropReq
 	fDropResp
+	fEpoch
 )
 
-var faultNames = []string{"pass", "hold", "not-leader", "server-busy", "split-at-rpc", "drop-req", "drop-resp"}
+var faultNames = []string{"pass", "hold", "not-leader", "server-busy", "split-at-rpc", "drop-req", "drop-resp", "epoch-not-match"}
 
 type fault struct {
 	Kind     int    `json:"kind"`
@@ -110,6 +111,9 @@ type spec struct {
 	// LoseUntilError: the loss ends as soon as Flush/FlushWait has reported an error to the driver (the
 	// store is reachable again when the application goes on to Commit or Rollback)
 	LoseUntilError bool `json:"lose_until_error_reported"`
+	// BGFaults: what happens to the n-th BufferBatchGet RPC of the transaction (reads of flushed keys); a split
+	// is placed between two of the requested keys, so that the batch has to be re-grouped by region
+	BGFaults []fault `json:"buffer_batch_get_rpc_faults"`
 	ConflictKey string            `json:"conflict_key,omitempty"`
 	ResolveErr  int               `json:"resolve_rpc_fault"` // n-th ResolveLock of the txn gets a fault (-1 none)
 	ResolveKind int               `json:"resolve_rpc_fault_kind"`
@@ -131,8 +135,10 @@ func gen(rng *rand.Rand, id, prefixNo int) *spec {
 	switch x := rng.Intn(10); {
 	case x < 2:
 		s.Shape = "single-key"
-	case x < 5:
+	case x < 4:
 		s.Shape = "max-on-border"
+	case x < 6:
+		return genReadFlushed(rng, s, prefix)
 	default:
 		s.Shape = "random"
 	}
@@ -260,6 +266,7 @@ func gen(rng *rand.Rand, id, prefixNo int) *spec {
 			s.Faults = append(s.Faults, f)
 		}
 	}
+	s.BGFaults = genBGFaults(rng, s.Keys)
 	var written []string
 	for _, st := range s.Steps {
 		if st.Op == "set" || st.Op == "del" {
@@ -282,6 +289,138 @@ func gen(rng *rand.Rand, id, prefixNo int) *spec {
 	return s
 }
 
+// genBGFaults draws the faults of the first BufferBatchGet RPCs of a transaction.
+func genBGFaults(rng *rand.Rand, keys []string) []fault {
+	if rng.Intn(3) == 0 {
+		return nil
+	}
+	var out []fault
+	for i, n := 0, 1+rng.Intn(6); i < n; i++ {
+		f := fault{}
+		switch x := rng.Intn(100); {
+		case x < 45:
+			f.Kind = fPass
+		case x < 57:
+			f.Kind = fNotLeader
+		case x < 65:
+			f.Kind = fBusy
+		case x < 77:
+			f.Kind = fEpoch
+		default:
+			f.Kind = fSplit
+			f.SplitKey = keys[rng.Intn(len(keys))] // used when the request has a single key
+		}
+		out = append(out, f)
+	}
+	return out
+}
+
+// genReadFlushed: the keys sit in one region and carry committed values; the transaction overwrites / deletes
+// several of them, flushes and waits (the writes are now in neither local buffer), then the region is split
+// between the written keys - by the driver behind the back of the client's region cache, or exactly at the
+// BufferBatchGet RPC - and the keys are read with one BatchGet and again with Get (batch-get cache).
+func genReadFlushed(rng *rand.Rand, s *spec, prefix string) *spec {
+	s.Shape = "read-flushed"
+	nk := 3 + rng.Intn(len(suffixes)-2)
+	perm := rng.Perm(len(suffixes))[:nk]
+	sort.Ints(perm)
+	for _, i := range perm {
+		s.Keys = append(s.Keys, prefix+suffixes[i])
+	}
+	for _, k := range s.Keys {
+		if rng.Intn(10) < 7 {
+			s.Base[k] = fmt.Sprintf("base%d.%s", s.ID, k[len(prefix):])
+		}
+	}
+	s.FlushConc = []int{1, 2, 8}[rng.Intn(3)]
+	s.ResolveConc = []int{1, 2, 8}[rng.Intn(3)]
+	s.MinKeys = []int{1, 2, 3}[rng.Intn(3)]
+	s.MinSize = []int{0, 1, 6000}[rng.Intn(3)]
+	s.ForceSize = []int{9000, 1 << 40}[rng.Intn(2)]
+	s.End = []string{"commit", "commit", "rollback"}[rng.Intn(3)]
+	if rng.Intn(2) == 0 {
+		s.Splits = append(s.Splits, prefix)
+	}
+	if rng.Intn(2) == 0 {
+		s.Splits = append(s.Splits, prefix+"\xff")
+	}
+	vn := 0
+	written := map[string]bool{}
+	rounds := 1 + rng.Intn(2)
+	for r := 0; r < rounds; r++ {
+		for _, i := range rng.Perm(len(s.Keys)) {
+			k := s.Keys[i]
+			if len(written) >= 2 && rng.Intn(3) == 0 {
+				continue
+			}
+			_, hasBase := s.Base[k]
+			if rng.Intn(3) == 0 && (hasBase || written[k]) {
+				s.Steps = append(s.Steps, step{Op: "del", Key: k})
+			} else {
+				vn++
+				s.Steps = append(s.Steps, step{Op: "set", Key: k, Val: fmt.Sprintf("v%d.%d", s.ID, vn)})
+			}
+			written[k] = true
+		}
+		s.Steps = append(s.Steps, step{Op: "flush", Force: true})
+		if r < rounds-1 && rng.Intn(2) == 0 {
+			continue // the next forced flush consumes this one
+		}
+		s.Steps = append(s.Steps, step{Op: "flushwait"})
+	}
+	var ws []string
+	for _, k := range s.Keys {
+		if written[k] {
+			ws = append(ws, k)
+		}
+	}
+	mid := ws[(len(ws)+1)/2] // a written key with at least one written key below it
+	splitByDriver := rng.Intn(2) == 0
+	if splitByDriver {
+		s.Steps = append(s.Steps, step{Op: "split", Key: mid})
+	}
+	readKeys := append([]string(nil), ws...)
+	for _, k := range s.Keys {
+		if !written[k] && rng.Intn(2) == 0 {
+			readKeys = append(readKeys, k)
+		}
+	}
+	rng.Shuffle(len(readKeys), func(i, j int) { readKeys[i], readKeys[j] = readKeys[j], readKeys[i] })
+	s.Steps = append(s.Steps, step{Op: "bget", Keys: readKeys})
+	for _, k := range ws {
+		s.Steps = append(s.Steps, step{Op: "get", Key: k})
+	}
+	if rng.Intn(2) == 0 {
+		// a later write, a second border and the same reads again
+		vn++
+		s.Steps = append(s.Steps, step{Op: "set", Key: ws[rng.Intn(len(ws))], Val: fmt.Sprintf("v%d.%d", s.ID, vn)})
+		s.Steps = append(s.Steps, step{Op: "flush", Force: rng.Intn(2) == 0})
+		if rng.Intn(2) == 0 {
+			s.Steps = append(s.Steps, step{Op: "split", Key: ws[1]})
+		}
+		s.Steps = append(s.Steps, step{Op: "bget", Keys: append([]string(nil), s.Keys...)})
+		s.Steps = append(s.Steps, step{Op: "get", Key: ws[0]}, step{Op: "get", Key: ws[len(ws)-1]})
+	}
+	// the first BufferBatchGet RPC: a split between the requested keys exactly at the RPC, or a region error
+	first := fault{Kind: fSplit, SplitKey: mid}
+	if splitByDriver {
+		first.Kind = []int{fPass, fPass, fNotLeader, fBusy, fEpoch}[rng.Intn(5)]
+	} else if rng.Intn(4) == 0 {
+		first.Kind = []int{fNotLeader, fBusy, fEpoch}[rng.Intn(3)]
+	}
+	s.BGFaults = append([]fault{first}, genBGFaults(rng, s.Keys)...)
+	if rng.Intn(3) == 0 {
+		for i, n := 0, 1+rng.Intn(4); i < n; i++ {
+			s.Faults = append(s.Faults, fault{Kind: []int{fPass, fHold, fNotLeader, fDropResp}[rng.Intn(4)]})
+		}
+	}
+	if rng.Intn(6) == 0 {
+		s.ResolveErr = rng.Intn(3)
+		s.ResolveKind = []int{fNotLeader, fSplit}[rng.Intn(2)]
+	}
+	return s
+}
+
 // ---------------------------------------------------------------- fault plan (decider of the client)
 
 type plan struct {
@@ -291,6 +430,7 @@ type plan struct {
 	startTS  uint64
 	nFlush   int
 	nResolve int
+	nBG      int
 	held     []chan struct{}
 	release  bool // release mode: nothing is held
 	loseOver bool // the loss of Flush RPCs has ended
@@ -314,6 +454,56 @@ func (p *plan) decide(c *uni.Call) uni.Action {
 			k := []byte(p.s.Keys[len(p.s.Keys)/2])
 			p.counts["resolve:split-at-rpc"]++
 			return uni.Action{Before: func() { p.u.SplitAt(k) }}
+		}
+		return uni.Action{}
+	}
+	if c.Cmd == tikvrpc.CmdBufferBatchGet {
+		n := p.nBG
+		p.nBG++
+		p.counts["bufget:rpcs"]++
+		if n >= len(p.s.BGFaults) {
+			return uni.Action{}
+		}
+		f := p.s.BGFaults[n]
+		switch f.Kind {
+		case fNotLeader:
+			p.counts["bufget:not-leader"]++
+			return uni.Action{Kind: uni.RegionErr, RegErr: &errorpb.Error{Message: "injected", NotLeader: &errorpb.NotLeader{RegionId: c.RegionID}}}
+		case fBusy:
+			p.counts["bufget:server-busy"]++
+			return uni.Action{Kind: uni.RegionErr, RegErr: &errorpb.Error{Message: "injected", ServerIsBusy: &errorpb.ServerIsBusy{Reason: "verif"}}}
+		case fEpoch:
+			p.counts["bufget:epoch-not-match"]++
+			return uni.Action{Kind: uni.RegionErr, RegErr: &errorpb.Error{Message: "injected", EpochNotMatch: &errorpb.EpochNotMatch{}}}
+		case fSplit:
+			// between two of the requested keys, so that they no longer fit one region
+			k := []byte(f.SplitKey)
+			nkeys := 0
+			if r, ok := c.Req.(*kvrpcpb.BufferBatchGetRequest); ok {
+				var ks []string
+				seen := map[string]bool{}
+				for _, x := range r.Keys {
+					if !seen[string(x)] {
+						seen[string(x)] = true
+						ks = append(ks, string(x))
+					}
+				}
+				sort.Strings(ks)
+				nkeys = len(ks)
+				if len(ks) >= 2 {
+					k = []byte(ks[len(ks)/2])
+				}
+			}
+			return uni.Action{Before: func() {
+				if p.u.SplitAt(k) {
+					p.mu.Lock()
+					p.counts["bufget:split-at-rpc"]++
+					if nkeys >= 2 {
+						p.counts["bufget:split-between-requested-keys"]++
+					}
+					p.mu.Unlock()
+				}
+			}}
 		}
 		return uni.Action{}
 	}
@@ -446,6 +636,7 @@ type caseRec struct {
 	reads     map[string]int
 	heldReleasedByWait, heldReleasedByStep int
 	conflictCommitted bool
+	splitsByDriver    int
 	shape             []string
 	splitsDone        []string
 }
@@ -626,6 +817,12 @@ loop:
 				}
 			}
 			rec.shape = append(rec.shape, sh)
+		case "split":
+			// behind the back of the client's region cache
+			if u.SplitAt([]byte(st.Key)) {
+				rec.splitsByDriver++
+				rec.shape = append(rec.shape, "split")
+			}
 		case "release":
 			if n := p.releaseAll(false); n > 0 {
 				rec.heldReleasedByStep += n
@@ -1146,6 +1343,7 @@ func runUniverse(t *testing.T, r *vrep.Report, rng *rand.Rand, uniNo, nCases int
 		if s.LoseFrom >= 0 || s.ConflictKey != "" || rec.endErr != "" || rec.flushErr != "" {
 			t.Logf("case %d %s end=%s committed=%v endErr=%q flushErr=%q loseFrom=%d conflict=%q(%v) faults=%v trace=%v", s.ID, s.Shape, rec.ended, rec.committed, rec.endErr, rec.flushErr, s.LoseFrom, s.ConflictKey, rec.conflictCommitted, rec.faults, rec.shape)
 		}
+		r.Count("region_splits_by_driver_after_flush", rec.splitsByDriver)
 		r.Count("flushes_triggered_by_driver", len(rec.gens))
 		r.Count("flush_rpcs", ws.flushRPCs)
 		r.Count("flush_rpcs_applied", ws.applied)
@@ -1183,7 +1381,7 @@ func countCmd(calls []uni.Call, cmd tikvrpc.CmdType) int {
 }
 
 func TestVerifC16(t *testing.T) {
-	r := vrep.New("C16", "c16-e2e", "generated pipelined transactions (set/delete/get/batch-get/flush force|threshold/flush-wait, then Commit or Rollback; flush thresholds lowered through the pipelinedMemDB* failpoints; flush and resolve concurrency 1|2|8) on unistore, each on its own key prefix with its own region layout (random borders, largest written key first in its region, a single flushed key) and a fault plan on its Flush RPCs (held in flight while the program goes on, NotLeader, ServerIsBusy, region split at the RPC, lost request, lost response, every request lost from some point on, conflicting committed write; NotLeader/split on a ResolveLock RPC); monitors: reads vs the driver's model by tier, wire (mutations per generation, completeness of successful flushes, increasing generations, one generation in flight), Commit fails after a reported flush error, MVCC truth after drain (latest writes at the primary's commit ts and no lock / nothing and no lock); distinct = distinct (shape, end, outcome, operation/tier trace) of transactions that flushed at least once")
+	r := vrep.New("C16", "c16-e2e", "generated pipelined transactions (set/delete/get/batch-get/flush force|threshold/flush-wait, then Commit or Rollback; flush thresholds lowered through the pipelinedMemDB* failpoints; flush and resolve concurrency 1|2|8) on unistore, each on its own key prefix with its own region layout (random borders, largest written key first in its region, a single flushed key, committed old values under keys that are overwritten/deleted, flushed and waited for and then read by one BatchGet and by Get while the region is split between them - by the driver behind the client's region cache or exactly at the BufferBatchGet RPC) and a fault plan on its BufferBatchGet RPCs (split between two requested keys, NotLeader, ServerIsBusy, EpochNotMatch) and on its Flush RPCs (held in flight while the program goes on, NotLeader, ServerIsBusy, region split at the RPC, lost request, lost response, every request lost from some point on, conflicting committed write; NotLeader/split on a ResolveLock RPC); monitors: reads vs the driver's model by tier, wire (mutations per generation, completeness of successful flushes, increasing generations, one generation in flight), Commit fails after a reported flush error, MVCC truth after drain (latest writes at the primary's commit ts and no lock / nothing and no lock); distinct = distinct (shape, end, outcome, operation/tier trace) of transactions that flushed at least once")
 	defer r.Finish(t)
 	_ = failpoint.Enable("tikvclient/fastBackoffBySkipSleep", "return")
 	defer failpoint.Disable("tikvclient/fastBackoffBySkipSleep")
@@ -1198,7 +1396,11 @@ func TestVerifC16(t *testing.T) {
 	r.Floor("commit_ok", 150)
 	r.Floor("end:rollback", 80)
 	r.Floor("programs:single-key", 40)
-	r.Floor("programs:max-on-border", 80)
+	r.Floor("programs:max-on-border", 60)
+	r.Floor("programs:read-flushed", 60)
+	r.Floor("fault:bufget:split-between-requested-keys", 15)
+	r.Floor("region_splits_by_driver_after_flush", 15)
+	r.Floor("fault:bufget:epoch-not-match", 10)
 	r.Floor("generations_on_wire", 500)
 	r.Floor("flushes_threshold_driven", 20)
 	r.Floor("read:get:flushed", 20)
